@@ -1,5 +1,124 @@
-(* C13 — property theorems (placeholder until the model is built). *)
-From WI Require Import Lib.Base Lib.Info Model.Der Proofs.Der.
-Theorem C13_placeholder : True.
-Proof. exact I. Qed.
-Print Assumptions C13_placeholder.
+(* C13 — generic ASN.1 dump mirrors the DER structure exactly.
+   Only statements; proofs are in Proofs/Der.v and Proofs/DerValues.v.
+   [parse_raw false], [dump false], [value false], [describe false], [asn1_file false] model the
+   code as it is now; the [true] variants model the code before the C13 repairs and appear only
+   in the refutation witnesses at the end. *)
+From WI Require Import Lib.Base Lib.Info Lib.Time gen.Asn1Names Model.Der Proofs.Der.
+Open Scope N_scope.
+
+(* ---------- structure ---------- *)
+
+(* Every well-formed forest of TLV trees within the nesting limit is parsed back, from its DER
+   encoding, to exactly itself: one node per element, same nesting, empty constructed values
+   included (they are [Cons c t []]). *)
+Theorem C13_roundtrip : forall ts,
+  forest_ok ts = true -> ts <> [] -> forest_height ts <= max_depth ->
+  parse_raw false (encode_forest ts) = Ok ts.
+Proof. exact parse_raw_encode. Qed.
+Print Assumptions C13_roundtrip.
+
+Example C13_roundtrip_nonvacuous :
+  let ts := [Cons 0 16 [Cons 0 16 []; Prim 2 5 [65]; Cons 2 0 []; Prim 0 2 [0; 200]]] in
+  forest_ok ts = true /\ ts <> [] /\ forest_height ts <= max_depth /\
+  encode_forest ts = [48; 11; 48; 0; 133; 1; 65; 160; 0; 2; 2; 0; 200].
+Proof. vm_compute. repeat split; discriminate. Qed.
+
+(* DER is canonical for what the parser accepts: whatever bytes parse, they are the encoding of the
+   parsed forest - no second byte string (indefinite or non-minimal length, non-minimal tag,
+   different nesting) yields the same structure - and the forest is well formed and within the limit. *)
+Theorem C13_canonical : forall data ts,
+  bytes_ok data = true -> parse_raw false data = Ok ts ->
+  encode_forest ts = data /\ ts <> [] /\ forest_ok ts = true /\ forest_height ts <= max_depth.
+Proof. intros data ts Hok H. apply parse_raw_canonical; assumption. Qed.
+Print Assumptions C13_canonical.
+
+(* the nesting limit (regenerated from asn1struct.maxDepth) is exact: deeper well-formed structures
+   are an error, hence "unknown ASN.1 data", never a crash or a partial dump *)
+Theorem C13_depth_limit : forall ts,
+  forest_ok ts = true -> ts <> [] -> max_depth < forest_height ts ->
+  (exists e, parse_raw false (encode_forest ts) = Err e) /\
+  describe false (encode_forest ts) = unknown_asn1.
+Proof.
+  intros ts H1 H2 H3. destruct (parse_raw_too_deep ts H1 H2 H3) as [e He].
+  split; [exists e; exact He|]. apply describe_err. intros ts' E. rewrite He in E. discriminate.
+Qed.
+Print Assumptions C13_depth_limit.
+
+(* the recursion of ParseRaw terminates: the fuel of the model is never exhausted *)
+Theorem C13_fuel_unreachable : forall legacy data, parse_raw legacy data <> Err "fuel".
+Proof. exact parse_raw_fuel_adequate. Qed.
+Print Assumptions C13_fuel_unreachable.
+
+(* ---------- the dump ---------- *)
+
+(* For an object that is none of the recognised key or certificate types ([der] = what parseDERData
+   answered), the report is "ASN.1 data" with one child per top-level element, and the tree below
+   has exactly the shape of the TLV forest; no node has attributes. *)
+Theorem C13_shape : forall ts der,
+  forest_ok ts = true -> ts <> [] -> forest_height ts <= max_depth ->
+  i_desc der = bs "unknown ASN.1 data" ->
+  let i := asn1_file false der (encode_forest ts) in
+  i_desc i = bs "ASN.1 data" /\ i_attrs i = [] /\
+  map shape_of_info (i_children i) = map shape_of_tlv ts /\
+  forallb no_attrs (i_children i) = true.
+Proof.
+  intros ts der H1 H2 H3 Hder. cbv zeta.
+  rewrite asn1_file_unrecognised by exact Hder.
+  rewrite (describe_ok false _ ts) by (apply parse_raw_encode; assumption).
+  cbn [i_desc i_attrs i_children]. repeat split.
+  - apply dump_forest_shape.
+  - rewrite forallb_forall. intros i Hi. apply in_map_iff in Hi as (t & <- & _). apply dump_no_attrs.
+Qed.
+Print Assumptions C13_shape.
+
+(* A complete outer element whose content is not DER is "unknown ASN.1 data" without children,
+   not a dump; and a recognised object is reported as what it was recognised as. *)
+Theorem C13_not_der_is_unknown : forall data der,
+  i_desc der = bs "unknown ASN.1 data" -> (forall ts, parse_raw false data <> Ok ts) ->
+  asn1_file false der data = Info (bs "unknown ASN.1 data") [] [].
+Proof. intros data der Hder H. rewrite asn1_file_unrecognised by exact Hder. apply describe_err. exact H. Qed.
+Print Assumptions C13_not_der_is_unknown.
+
+(* labels: a constructed element is shown by its label alone, a primitive one as "label: value";
+   the label of a universal tag is its X.680 name, of anything else the decimal tag number *)
+Theorem C13_labels : forall c tag content ch,
+  i_desc (dump false (Cons c tag ch)) = type_string c tag /\
+  i_desc (dump false (Prim c tag content)) = type_string c tag ++ bs ": " ++ value false c tag content /\
+  (c <> 0 -> type_string c tag = dec_of_N tag) /\
+  (forall name, lookup_name tag x680_universal_names = Some name -> type_string 0 tag = name) /\
+  (lookup_name tag x680_universal_names = None -> type_string 0 tag = dec_of_N tag).
+Proof.
+  intros c tag content ch. repeat split.
+  - apply type_string_other_class.
+  - intros name H. apply type_string_universal_named. apply lookup_in_table; [exact names_ok_now|exact H].
+  - intros H. apply type_string_universal_unnamed. apply lookup_not_in_table; [exact names_ok_now|exact H].
+Qed.
+Print Assumptions C13_labels.
+
+(* T1: the regenerated name table agrees with the X.680 list, no name contains a colon or is a numeral *)
+Theorem C13_names_table_ok : names_ok asn1_tag_names = true.
+Proof. exact names_ok_now. Qed.
+Print Assumptions C13_names_table_ok.
+
+(* ---------- acceptance ---------- *)
+
+(* The sniffer accepts exactly the byte strings that are one complete DER element: canonical
+   identifier octets, canonical definite length, exactly that many content octets, nothing after. *)
+Theorem C13_acceptance : forall data, bytes_ok data = true ->
+  (is_asn1 data = true <-> one_element data).
+Proof. intros data Hok. split; [apply is_asn1_sound; exact Hok | apply is_asn1_complete]. Qed.
+Print Assumptions C13_acceptance.
+
+Theorem C13_trailing_bytes_rejected : forall data extra,
+  bytes_ok (data ++ extra) = true -> is_asn1 data = true -> extra <> [] -> is_asn1 (data ++ extra) = false.
+Proof. exact is_asn1_no_trailing. Qed.
+Print Assumptions C13_trailing_bytes_rejected.
+
+(* non-DER neighbours of 30 03 02 01 05: indefinite length, non-minimal length, long form for a
+   short length, non-minimal tag, truncation - none is ASN.1, none parses *)
+Theorem C13_neighbours_rejected :
+  forallb (fun d => negb (is_asn1 d) && negb (is_ok (parse_raw false d)))
+    [[48; 128; 2; 1; 5; 0; 0]; [48; 129; 3; 2; 1; 5]; [48; 130; 0; 3; 2; 1; 5]; [63; 16; 3; 2; 1; 5];
+     [48; 3; 2; 129; 1; 5]; [48; 3; 2; 1]; [48; 3]; [48]; []; [48; 3; 2; 128; 5; 0; 0]] = true.
+Proof. vm_compute. reflexivity. Qed.
+Print Assumptions C13_neighbours_rejected.
